@@ -164,6 +164,16 @@ static void run_randi(Json& js, vh::Rng& rng, long budget) {
             mn = std::min<long>(mn, u[i]), mx = std::max<long>(mx, u[i]);
         }
         js.begin("Randi").raw("lo", 1).raw("hi", imax).num("n", n).raw("min", mn).raw("max", mx).boolean("all_int", u.size() == n).end();
+        // the scalar overload draws from the same documented range [1, imax]
+        {
+            const int im = (int)rng.range(1, 5);
+            long smn = 1L << 30, smx = -(1L << 30);
+            for (int i = 0; i < 600; ++i) {
+                const long q = randi(im);
+                smn = std::min(smn, q), smx = std::max(smx, q);
+            }
+            js.begin("Randi").raw("lo", 1).raw("hi", im).num("n", 600).raw("min", smn).raw("max", smx).boolean("all_int", true).end();
+        }
         const arr_real r = dsplib::rand(n);
         bool inside = true;
         for (int i = 0; i < n; ++i) {
@@ -186,11 +196,13 @@ static void run_awgn(Json& js, vh::Rng& rng, long budget, int maxlen) {
         const bool cplx = rng.coin();
         const int kind = (int)rng.range(0, 2);   // tone / broadband / unbalanced I-Q
         dsplib::rng((int)rng.range(0, 100000));
+        // half of the real signals ride on a pedestal: "signal power" is the mean square, not the variance
+        const double ped = (t % 2) ? amp * (0.5 + 2 * rng.unif()) * (rng.coin() ? 1 : -1) : 0.0;
         LD ps = 0, pn = 0;
         if (!cplx) {
             arr_real x(n);
             for (int i = 0; i < n; ++i) {
-                x[i] = amp * (kind == 1 ? rng.gauss() : std::sin(0.37 * i + 0.2));
+                x[i] = amp * (kind == 1 ? rng.gauss() : std::sin(0.37 * i + 0.2)) + ped;
             }
             const arr_real y = awgn(x, snr);
             for (int i = 0; i < n; ++i) {
